@@ -71,6 +71,7 @@ def cases(tier, seed):
         add(np_, "residual", fmt_vec(f), a, RP, CP, fmt_vec(x))
         add(np_, "inner", RP, fmt_vec(y), fmt_vec(f))
         add(np_, "transpose", a, RP, CP)
+        add(np_, "transpose_s", a, RP, CP)
         B = gen.dycrs(r, m, k, dups=(r.random() < 0.2))
         b = fmt_crs(m, k, B)
         add(np_, "product", a, RP, CP, b, KP)
@@ -116,7 +117,7 @@ def cases(tier, seed):
                         ops_for(np_, n, p, m, gen.rcomposition(r, m, np_), k, gen.rcomposition(r, k, np_))
                     square_ops(np_, n, p)
         # ---- random larger
-        for it in range(25 if quick else 120):
+        for it in range(60 if quick else 150):
             n = r.randint(6, 30); m = r.choice([n, n, r.randint(1, 30)]); k = r.choice([n, r.randint(1, 30)])
             rp = gen.rcomposition(r, n, np_)
             cp = rp if (m == n and r.random() < 0.7) else gen.rcomposition(r, m, np_)
